@@ -21,15 +21,16 @@ NIn == Tr.nin
 
 Obs0 == [sent |-> [i \in 1..NIn |-> <<>>], pend |-> [i \in 1..NIn |-> <<>>], closed |-> [i \in 1..NIn |-> FALSE],
          sentAt |-> [i \in 1..NIn |-> <<>>],
-         cancelled |-> FALSE, cancelAt |-> 0, sentAtCancel |-> [i \in 1..NIn |-> <<>>], gotAtCancel |-> [o \in Outs |-> 0],
+         cancelled |-> FALSE, cancelAt |-> 0, lastEnvAt |-> 0, sentAtCancel |-> [i \in 1..NIn |-> <<>>], gotAtCancel |-> [o \in Outs |-> 0],
          got |-> [o \in Outs |-> <<>>], gotAt |-> [o \in Outs |-> <<>>], recvAt |-> [o \in Outs |-> <<>>],
          seen |-> [o \in Outs |-> FALSE], rp |-> [o \in Outs |-> FALSE],
          calls |-> <<>>, pending |-> 0, inLen |-> [i \in 1..NIn |-> 0], live |-> 0, now |-> 0, panic |-> FALSE,
          quiet |-> TRUE, outs |-> Outs]
 
 \* the command of a window (nothing happens for a skipped one)
-ApplyCmd(o, c, skipped) ==
-  IF skipped THEN o ELSE
+ApplyCmd(o0, c, skipped) ==
+  IF skipped THEN o0 ELSE
+  LET o == IF c.c \in {"advance", "init"} THEN o0 ELSE [o0 EXCEPT !.lastEnvAt = o0.now] IN
   CASE c.c = "send" -> [o EXCEPT !.pend[c.i + 1] = <<c.v>>]
     [] c.c = "close" -> [o EXCEPT !.closed[c.i + 1] = TRUE]
     [] c.c = "recv" -> [o EXCEPT !.rp[c.o] = TRUE, !.recvAt[c.o] = Append(@, o.now)]
